@@ -116,7 +116,7 @@ def run(ctx, info):
     ctx.coverage["correspondence"] = {"cases": res["n"], "disagreements": len(res["bad"]), "files": res["files"]}
     from .. import scripted, edgesuite
     scripted.long_runs(ctx, [("history", scripted.oracle_c15)])
-    edgesuite.run(ctx, "history", focus=[n for n, sk in st.get("_skeletons", {}).items() if sk.get("core_writes") and n != "ImperialistCompetitiveOptimization"])
+    edgesuite.run(ctx, "history", info=info, focus=[n for n, sk in st.get("_skeletons", {}).items() if sk.get("core_writes") and n != "ImperialistCompetitiveOptimization"])
     r = ctx.rng
     jobs = []
     for nm in search.all_names():
